@@ -140,6 +140,10 @@ func ruleAdapterStatus(c *Ctx, rule string) {
 				if p.AnyFrom(a, eng.Plain, func(v ssa.Value) bool { return v == ssa.Value(status) }) {
 					return true
 				}
+				// among the label values of a WithLabelValues(…) call (a variadic slice)
+				if _, isSlice := a.(*ssa.Slice); isSlice && backwardDeps(a)[status] {
+					return true
+				}
 			}
 			return false
 		}
